@@ -54,7 +54,11 @@ CLAIMED = {
              "zero set is independent of the positive scale factor; a zero of the detonation residual plus the post-processing yields a "
              "conserving state; c1 = -energy flux and c2 = momentum flux on both sides, velocityMid = -(v+ + v-)/2. Every real matching "
              "(bag, template, traced potentials; three branches) is monitored by backward error against the exact conservation laws, with "
-             "call-site attribution (hybr convergence, template fallback) obtained by wrapping module names from outside.",
+             "call-site attribution (hybr convergence, template fallback) obtained by wrapping module names from outside. Decision logic of "
+             "findMatching (which bracket goes to which root finder, when the upper bound on v+ is re-evaluated, when the template approximation "
+             "is used) as an executable model (Model.Matching) with theorems (Props.C02M: fallback only without a sign change at the refined "
+             "bound and with a positive bounded minimum; refined bound only moves up; a root outcome solves the shock condition; final bracket "
+             "always valid), compared exactly with the REAL findMatching on scripted physics/solver stubs.",
         note="numerical solvers are oracles monitored by backward error <= 50(rtol+atol/T); hypotheses e+ != e-, e+ + p- != 0, vpovm>0 are "
              "checked on each real matching (the sign-blind residual is reported in DESIGN.md).",
         technique="Lean 4 proof over regenerated model + translator validation + backward-error monitor", ref="4/C02"),
@@ -70,7 +74,7 @@ CLAIMED = {
              "detonation passes v+=vw, T+=Tn through; vpDerivNum is the numerator of d(v+^2)/dT- (quotient rule) and vanishes iff "
              "cs-^2 = v-^2 (the Jouguet velocity is the Chapman-Jouguet point); orderings v+<v- etc. are equivalent to EOS inequalities. "
              "Admissibility, classification, CJ point and fastestDeflag/slowestDeton under artificially tight phase ranges are monitored "
-             "on real matchings every run.",
+             "on real matchings every run, incl. a bisection-located scan of the deflagration/hybrid transition vw = cs-(T-).",
         note="truth of the EOS inequalities and monotonicity of T+-(vw) below fastestDeflag are physics of the sampled EOS (monitored, not proved).",
         technique="Lean 4 proof over regenerated model + translator validation + real-run monitor", ref="4/C06"),
     "C15": dict(
@@ -129,7 +133,8 @@ CLAIMED = {
              "-int dV/dphi.dphi/dz dz = V(phi_low)-V(phi_high) for all widths and offsets (single and n fields, integrability PROVED from "
              "cosh^-2 decay); change of variables to the compact coordinate with the reported Jacobian (improper integral, instantiated on "
              "the regenerated simple grid); T-independent field part. Real _intermediatePressureResults runs in a uniform plasma over wall "
-             "shapes inside the property's box and grid sizes from 40 up, requiring the error to be small and to fall spectrally with M.",
+             "shapes inside the property's box and grid sizes from 40 up (equal and UNEQUAL grid tails), requiring the error to be small and to "
+             "fall spectrally with M.",
         note="discretisation error itself is not a theorem (C16 gives exactness on the quadrature class): partial; Nelder-Mead is an oracle "
              "whose result must not matter.",
         technique="Lean 4 proof (analysis in Mathlib) + real-run convergence monitor", ref="4/C09"),
@@ -147,7 +152,8 @@ CLAIMED = {
              "variables to the compact grid coordinates with the Jacobians of C17 (improper integrals, no integrability hypothesis); the "
              "returned moment is the double Gauss-Chebyshev-Lobatto sum and equals the double integral for every deviation whose integrand "
              "times the two square-root factors is a polynomial of degrees <= 2N-1, <= 2N-3; chained: returned moment = momentum-space "
-             "integral; linearity. Real getDeltas compared with the model and with closed-form integrals on the exactness family.",
+             "integral; linearity. Real getDeltas compared with the model and with closed-form integrals on the exactness family (weights from the analytic "
+             "momentum maps, grids also reached through changeMomentumFalloffScale histories).",
         note="exactness class is a condition on the integrand (delta f times weight), as the property states; T30/T33 assembly is proved in C04.",
         technique="Lean 4 proof over regenerated formulas + hand model + correspondence + exactness search", ref="4/C13"),
     "C12": dict(
@@ -180,7 +186,8 @@ CLAIMED = {
              "maxIterations (finding). The model is compared with the REAL solveWall and the REAL wallPressure loop on scripted pressure "
              "functions/streams (stubs injected from outside, final flags poisoned beforehand); real LTE end-to-end runs check the pressure "
              "sign change within 3*errTol, the window, that returned fields are those of a fresh evaluation at v, and bitwise repeatability "
-             "after interleaved LTE/matching/pressure calls and poisoned mutable state.",
+             "after interleaved LTE/matching/pressure calls and poisoned mutable state; WallGoManager level: solveWall on one manager through "
+             "sequences of configuration changes, LTE calls, detonation searches and other benchmark points equals a fresh manager.",
         note="brentq and the inner pressure iteration are oracles (convergence not proved): partial; out-of-equilibrium runs need collision "
              "files and are covered at the Boltzmann level (C12-C14), end-to-end runs are LTE.",
         technique="Lean 4 proof over decision model + scripted-stub correspondence + end-to-end history monitor", ref="4/C01"),
